@@ -50,7 +50,7 @@ class DalitzPlotDecomposition(SpinAlignment):
         return _formulate_aligned_amplitude(reaction, self.reference_subsystem)[0]
 
     def define_symbols(self, reaction: ReactionInfo) -> dict[sp.Symbol, sp.Expr]:
-        return _formulate_aligned_amplitude(reaction, self.reference_subsystem)[1]
+        return dict(_formulate_aligned_amplitude(reaction, self.reference_subsystem)[1])
 
 
 @cache
